@@ -191,9 +191,9 @@ def run_case(ch, mode, history, raw, cuts):
                 late = chunks[ref['consumed']:]
                 want = (ref['index'], ref['before'], ref['after'], ref['rest'] + type(pending)().join(late))
                 got = (out[1], sp.before, sp.after, sp.buffer)
-                if how == 's' and late:
-                    viol = ('late-match', 'blocking call read %d more chunk(s) after the text already matched' % len(late))
-                    break
+                # (chunks that were taken after the deciding one are legitimate for both forms: the transport of the
+                # awaited form delivers whatever has arrived, and the blocking pty read gathers everything that is
+                # readable right now before it returns -- they must only end up, in order, in front of the buffer)
                 if got != want:
                     viol = ('differs', '%s call: (index, before, after, buffer) = %r, reference %r; pending %r chunks %r'
                             % ('awaited' if how == 'a' else 'blocking', got, want, pending, chunks))
